@@ -112,5 +112,57 @@ fn main() {
             rep.sample(case.clone());
         }
     }
+    // ---- concurrent batches (the gossip layer calls `update` from every connection): AddrBook.tla's Update for DISJOINT sets of
+    // validators commutes, so whatever the interleaving the book must end up holding the newest announcement of every validator
+    let conc = catch(|| {
+        let rt = tokio::runtime::Builder::new_multi_thread().worker_threads(4).enable_all().build().unwrap();
+        rt.block_on(async {
+            let big = Committee::new(&[1; 12], 32);
+            let mut lost = vec![];
+            for round in 0..12u64 {
+                let book = Arc::new(AddrBook::default());
+                let barrier = Arc::new(tokio::sync::Barrier::new(4));
+                let mut hs = vec![];
+                for t in 0..4usize {
+                    let (book, barrier, big) = (book.clone(), barrier.clone(), big.clone());
+                    hs.push(tokio::spawn(async move {
+                        // this task owns validators 3t..3t+2; it announces versions 1..=6 of each, one batch per version
+                        let batches: Vec<Vec<Arc<validator::Signed<NetAddress>>>> = (1..=6u64)
+                            .map(|ver| {
+                                (0..3)
+                                    .map(|j| {
+                                        let k = &big.keys[3 * t + j];
+                                        Arc::new(k.sign_msg(NetAddress { addr: std::net::SocketAddr::from(([127, 0, 0, 1], 2000 + ver as u16)), version: ver, timestamp: time::UNIX_EPOCH + time::Duration::seconds(round as i64) }))
+                                    })
+                                    .collect()
+                            })
+                            .collect();
+                        barrier.wait().await;
+                        for b in batches {
+                            let _ = book.update(&big.schedule, &b).await;
+                            tokio::task::yield_now().await;
+                        }
+                    }));
+                }
+                for h in hs {
+                    let _ = h.await;
+                }
+                let cur = book.current();
+                for (i, k) in big.keys.iter().enumerate() {
+                    let v = cur.iter().find(|(pk, _)| *pk == k.public()).map(|(_, e)| e.msg.version).unwrap_or(0);
+                    if v != 6 {
+                        lost.push(json!({"round": round, "validator": i, "version_held": v, "newest_announced": 6}));
+                    }
+                }
+            }
+            lost
+        })
+    });
+    rep.evaluations += 12;
+    match conc {
+        Err(p) => rep.fail("addrbook_panic", format!("panic in the concurrent phase: {p}"), json!({"mode": "addrbook_concurrent"})),
+        Ok(lost) if !lost.is_empty() => rep.fail("addrbook_lost_update", format!("after concurrent batches for disjoint validators the book does not hold the newest accepted announcement of {} validator(s), e.g. {}", lost.len(), lost[0]), json!({"mode": "addrbook_concurrent", "lost": lost.iter().take(5).collect::<Vec<_>>()})),
+        Ok(_) => {}
+    }
     rep.write(&a[1]);
 }
